@@ -917,6 +917,18 @@ class Exec:
             if len(outs) == 1 and not isinstance(outs[0][1], ExcVal) and not outs[0][0].pc:
                 self.globals[e.id] = outs[0][1]
                 return [(ctx, outs[0][1])]
+        # a function defined at module level in the SAME module and not given a contract: its body is executed (inlined), so that a
+        # maintainer who extracts a private helper does not leave the modelled subset
+        fdefs = [n for n in self.tree.body if isinstance(n, ast.FunctionDef) and n.name == e.id]
+        if fdefs:
+            return [(ctx, Closure(fdefs[-1], {}, e.id))]
+        # a name imported from elsewhere: resolved through the `__import__` model hook (real value of the real module -> model value)
+        h = self.models.get("__import__")
+        if h is not None:
+            v = h(self, e.id)
+            if v is not None:
+                self.globals[e.id] = v
+                return [(ctx, v)]
         raise GenError(f"unresolved name {e.id!r} at line {e.lineno} of {self.current_fn}")
 
     def e_Tuple(self, e, ctx):
@@ -1117,6 +1129,14 @@ class Exec:
             return r if l else z3.Not(r)
         if isinstance(l, TypeRef) and isinstance(r, TypeRef):
             return l.name == r.name
+        sd = self.models.get("__structural_eq_sorts__", ())
+        if z3.is_expr(l) and z3.is_expr(r) and l.sort() == r.sort() and any(l.sort() == srt for srt in sd):
+            # `==` on objects whose model identifies EQUIVALENT values (dimensions: one exponent vector for `velocity*time/length` and
+            # `Dimension(1)`): Python's == is structural there -- true only if equivalent, but not whenever equivalent
+            if l.eq(r):
+                return True
+            us = z3.Function("structurally_equal_" + str(l.sort()), l.sort(), l.sort(), z3.BoolSort())
+            return z3.And(l == r, us(l, r))
         if z3.is_expr(l) or z3.is_expr(r):
             l2 = self.znum(l) if not isinstance(l, str) else z3.StringVal(l)
             r2 = self.znum(r) if not isinstance(r, str) else z3.StringVal(r)
